@@ -21,11 +21,25 @@ CONST_RE = re.compile(r"^(?:const|static) (?:mut )?(.+): (.+?) = \{$")
 
 
 def split_top(s, sep=","):
-    """split on sep at nesting depth 0 of (), [], <>, {}"""
+    """split on sep at nesting depth 0 of (), [], <>, {} (character and string literals are skipped)"""
     out, depth, cur = [], 0, ""
     i = 0
-    while i < len(s):
+    n = len(s)
+    while i < n:
         c = s[i]
+        # character literal: 'x', '\\n', '\\u{1F600}', '\\''
+        if c == "'":
+            m = re.match(r"'(?:\\u\{[0-9a-fA-F]+\}|\\.|[^'\\])'", s[i:])
+            if m:
+                cur += m.group(0)
+                i += len(m.group(0))
+                continue
+        if c == '"':
+            m = re.match(r'"(?:[^"\\]|\\.)*"', s[i:])
+            if m:
+                cur += m.group(0)
+                i += len(m.group(0))
+                continue
         if c in "([{<":
             depth += 1
         elif c in ")]}":
@@ -197,6 +211,8 @@ def parse_operand(s):
         return ("copy", parse_place(s[len("no_retag copy "):]))
     if s.startswith("const "):
         return ("const", s[6:])
+    if re.fullmatch(r"[\w:<>{}@ ./\-#\[\]]+", s) and not s.startswith("_"):
+        return ("const", "fn-item: " + s)  # a function item used as a value
     raise Unsupported(f"operand: {s}")
 
 
